@@ -2102,7 +2102,6 @@ func refFreeValue(v ssa.Value, depth int) bool {
 	return false
 }
 
-
 func posOfCommon(fr *Frame, common *ssa.CallCommon) string {
 	if in, ok := common.Value.(ssa.Instruction); ok {
 		return posOf(fr, in)
